@@ -204,6 +204,8 @@ def _cases_R(tier):
 
 
 def all_cases(tier):
+    for dflt in DI_DEFAULTS:
+        yield ("DI", dflt)
     yield from _cases_O(tier)
     yield from _cases_R(tier)
     yield from _cases_L(tier)
@@ -513,6 +515,46 @@ def _run_R(griffe, acc, case):
 
 
 RUN = {"P": _run_P, "L": _run_L, "O": _run_O, "R": _run_R}
+
+
+# DI: the same question put to the INSPECTOR (griffe.inspect on the imported module): names, kinds and required-ness as CPython binds them, for default
+# values whose repr is not a plain literal (angle brackets, enum members, sentinels, callables)
+DI_PRELUDE = "import enum, os\nclass Mode(enum.Enum):\n    FAST = 1\nclass Pt:\n    def __repr__(self):\n        return '<Pt>'\n_MISSING = object()\n"
+DI_DEFAULTS = ["0", "'<'", "'<b>'", "Mode.FAST", "Pt()", "_MISSING", "os.path.join", "len", "None", "(1, '<')", "lambda x: x", "Mode", "..."]
+
+
+def _run_DI(griffe, acc, case):
+    import sys
+
+    from mc.core import sandbox
+
+    _, dflt = case
+    src = DI_PRELUDE + f"def fa(p, q={dflt}, /, r={dflt}, *args, k={dflt}, kr, **kw): ...\nclass K:\n    def m(self, a={dflt}, *, b={dflt}): ...\n    @staticmethod\n    def s(x={dflt}): ...\n"
+    with sandbox.scratch_dir("c02di") as d, sandbox.interpreter_state():
+        with open(f"{d}/c02di_mod.py", "w") as f:
+            f.write(src)
+        sys.path.insert(0, d)
+        import importlib
+
+        importlib.invalidate_caches()
+        real = importlib.import_module("c02di_mod")
+        mod = griffe.inspect("c02di_mod", filepath=Path(f"{d}/c02di_mod.py"), import_paths=[d])
+        sys.modules.pop("c02di_mod", None)
+        for path, obj in (("fa", real.fa), ("K.m", real.K.m), ("K.s", real.K.s)):
+            gf = mod[path]
+            sig = inspect.signature(obj)
+            got = [(p.name, p.kind.value, bool(p.required)) for p in gf.parameters]
+            exp = [(n, KIND[INSPECT_KIND[sp.kind]], sp.default is inspect.Parameter.empty and sp.kind not in (sp.VAR_POSITIONAL, sp.VAR_KEYWORD)) for n, sp in sig.parameters.items()]
+            got = [(n, k, r and k not in ("variadic positional", "variadic keyword")) for n, k, r in got]
+            acc.case({"src": src, "path": path}, outcome="inspected:" + ("ok" if got == exp else "diff"), nontrivial=True)
+            acc.observe(got)
+            if got != exp:
+                bad = next((g, e) for g, e in zip(got + [None] * len(exp), exp + [None] * len(got)) if g != e)
+                what = "names" if [g[0] for g in got] != [e[0] for e in exp] else "kind" if [g[1] for g in got] != [e[1] for e in exp] else "required"
+                acc.violation(f"inspected/{what}/{'angle-bracket' if '<' in dflt or dflt in ('Mode.FAST', 'Pt()', '_MISSING', 'lambda x: x', 'Mode', 'len', 'os.path.join') else 'literal'}", f"{path} with default {dflt} inspected: {bad[0]} but CPython binds {bad[1]}", case)
+
+
+RUN["DI"] = _run_DI
 
 
 def run_shard(shard, tier):
